@@ -205,3 +205,29 @@ def returns_nonempty(ev: Event) -> bool:
     if isinstance(v, ast.Constant) and v.value in (None, False):
         return False
     return True
+
+
+
+def path_returns_nonempty(path: Path) -> bool:
+    """returns_nonempty for the path's final event, also resolving `return v` where the last assignment to v on this
+    very path is an empty list/tuple literal (single-return style: `v = []; if ...: v = f(); return v`)."""
+    if not path:
+        return False
+    ev = path[-1]
+    if not returns_nonempty(ev):
+        return False
+    v = ev[1].value
+    if isinstance(v, ast.Name):
+        last = None
+        for e in path[:-1]:
+            if e[0] == "stmt" and isinstance(e[1], (ast.Assign, ast.AnnAssign)) and e[1].value is not None:
+                tgts = e[1].targets if isinstance(e[1], ast.Assign) else [e[1].target]
+                if any(isinstance(t, ast.Name) and t.id == v.id for t in tgts):
+                    last = e[1].value
+            elif e[0] == "stmt" and isinstance(e[1], (ast.AugAssign,)) and isinstance(e[1].target, ast.Name) and e[1].target.id == v.id:
+                last = e[1]
+            elif e[0] == "stmt" and isinstance(e[1], ast.Expr) and isinstance(e[1].value, ast.Call) and isinstance(e[1].value.func, ast.Attribute) and isinstance(e[1].value.func.value, ast.Name) and e[1].value.func.value.id == v.id:
+                last = e[1]   # v.append(...) / v.extend(...): may be non-empty
+        if isinstance(last, (ast.List, ast.Tuple)) and not last.elts:
+            return False
+    return True
